@@ -114,6 +114,8 @@ class Env:
         self.seen_ids = set()
         self.spy = None  # active recording of Node.__init__ calls
         self.spy_ok = False
+        self.cur_operands = []  # outer-scope operand Vars of the call in progress (for `rel = outer`)
+        self.cur_shape_arg = None  # an outer int64[?] value (for `rel = unkshape`)
 
     # -- types
     def to_spox(self, d):
@@ -185,28 +187,83 @@ def remove_spy(env: Env):
 
 
 # ----------------------------------------------------------------------------- running a case
+RELATIONS = ["same", "identity", "dim", "rank", "dtype", "unkshape", "swap", "outer", "const"]
+
+
+def related(env, op, rel, v, i, peers, outer_vals):
+    try:
+        return _related(env, op, rel, v, i, peers, outer_vals)
+    except Exception:  # noqa: BLE001 - the transformation does not apply to this value: hand it back
+        return v
+
+
+def _related(env, op, rel, v, i, peers, outer_vals):
+    """A result standing in relation `rel` to the body argument `v` (the i-th of `peers`).
+    Only tensors of known shape are transformed; everything else is handed back unchanged."""
+    np = env.np
+    t = getattr(v, "type", None)
+    is_tensor = isinstance(t, env.ts.Tensor)
+    if rel == "same" or not is_tensor and rel not in ("swap", "outer"):
+        return v
+    if rel == "identity":
+        return op.identity(v)
+    if rel == "swap":  # the carried values in another order
+        return peers[(i + 1) % len(peers)] if peers else v
+    if rel == "outer":  # an outer-scope value of the operand's own type (the operand itself)
+        return outer_vals[i] if i < len(outer_vals) and outer_vals[i] is not None else v
+    if rel == "dtype":
+        return op.cast(v, to=np.int32 if t.dtype != np.int32 else np.float32)
+    if rel == "unkshape":  # a result whose rank is unknown
+        return op.reshape(v, env.cur_shape_arg) if env.cur_shape_arg is not None else v
+    if t.shape is None:
+        return v
+    if rel == "rank":
+        return op.unsqueeze(v, op.const(np.array([0], np.int64)))
+    if rel == "dim":  # same dtype and rank, another constant dimension
+        if len(t.shape) == 0:
+            return v
+        if len(t.shape) >= 2 and t.shape[0] != t.shape[1]:
+            perm = list(range(len(t.shape)))
+            perm[0], perm[1] = 1, 0
+            return op.transpose(v, perm=perm)
+        return op.concat([v, v], axis=0)
+    if rel == "const":
+        if all(isinstance(d, int) for d in t.shape) and t.dtype != np.str_:
+            return op.const(np.zeros(t.shape, t.dtype))
+        return v
+    return v
+
+
 def natural_results(env, op, ctor, case, args):
-    """The results of a body that is valid for this constructor (uses its arguments)."""
+    """The results of a body that uses its arguments; `case["rel"]` says how the values fed back
+    (carried values / states / mapped elements) are related to the arguments they came from."""
     if ctor == "if_":
         return [op.const(float(i)) for i in range(case["cbs"]["else_branch"].get("natural", 1))]
     k_extra = case.get("k_extra", 0)
+    rel = case.get("rel", "same")
+    outer_vals = env.cur_operands
     if ctor == "loop":
-        out = [args[1]] + list(args[2:])
+        car = list(args[2:])
+        out = [args[1]] + [related(env, op, rel, v, i, car, outer_vals) for i, v in enumerate(car)]
         out += [op.identity(args[0]) for _ in range(k_extra)]
         return out
     if ctor == "scan":
         m = case["ints"]["num_scan_inputs"]
         n_ops = len(case["lists"]["initial_state_and_scan_inputs"])
         n_state = max(n_ops - m, 0)
-        out = list(args[:n_state])
+        states = list(args[:n_state])
+        out = [related(env, op, rel, v, i, states, outer_vals) for i, v in enumerate(states)]
         scans = list(args[n_state:])
         for i in range(k_extra):
-            out.append(op.identity(scans[i % len(scans)]) if scans else op.const(1.0))
+            out.append(related(env, op, rel if rel not in ("swap", "outer") else "identity",
+                               scans[i % len(scans)], i, scans, []) if scans else op.const(1.0))
         return out
     if ctor == "sequence_map":
-        out = [op.identity(args[0])]
+        al = list(args)
+        out = [related(env, op, rel if rel != "outer" else "identity", args[0], 0, al, [])]
         for i in range(k_extra):
-            out.append(op.identity(args[(i + 1) % len(args)]))
+            j = (i + 1) % len(args)
+            out.append(related(env, op, rel if rel != "outer" else "identity", args[j], j, al, []))
         return out
     raise ValueError(ctor)
 
@@ -251,7 +308,10 @@ def make_callback(env, op, ctor, case, role, rec, counters):
         if cont == "map":
             return map(lambda v: v, vs)
         if cont == "dictkeys":
-            return {v: i for i, v in enumerate(vs)}.keys()
+            uniq = []
+            for v in vs:  # a dict would merge a Var that occurs twice
+                uniq.append(op.identity(v) if any(v is u for u in uniq) else v)
+            return {v: i for i, v in enumerate(uniq)}.keys()
         return vs
 
     return fun
@@ -306,6 +366,14 @@ def run_real(env: Env, case, steps=()):
         outer["M"] = env.spox.argument(env.ts.Tensor(np.int64, ()))
         if case.get("cond") is not None:
             outer["cond"] = env.operand(case["cond"])
+    env.cur_operands = list(operands.get("v_initial", [])) or list(operands.get("initial_state_and_scan_inputs", []))
+    env.cur_operands = [v if v.type is not None else None for v in env.cur_operands]
+    env.cur_shape_arg = None
+    if case.get("rel") == "unkshape":
+        with warnings.catch_warnings():
+            warnings.simplefilter("ignore")
+            outer["shp"] = env.spox.argument(env.ts.Tensor(np.int64, (None,)))
+        env.cur_shape_arg = outer["shp"]
     obs["counts_calls"], obs["stages"] = [], []
     for _rep in range(case.get("repeat", 1)):  # the same call again, with the very same callback objects
         before = dict(counters)
@@ -715,6 +783,8 @@ def finish_case(case, rng, container=None):
         if rng.random() < 0.6 and k_ > 0:
             attrs["scan_output_axes"] = [rng.choice([0, 0, 1, -1]) for _ in range(k_)]
         case["scan_attrs"] = attrs
+    if ctor != "if_" and "rel" not in case:
+        case["rel"] = rng.choice(RELATIONS) if rng.random() < 0.6 else "same"
     cont = container or rng.choice(["list", "list", "tuple", "gen", "map", "dictkeys"])
     if ctor == "if_":
         n = case.get("n_if", 1)
@@ -1135,7 +1205,7 @@ def _run(ck: core.Check, env: Env, info):
     info = dict(info, resolves=resolves)
     cases = gen_cases(ck, info)
     # which cases also get the later steps (builds, inference, value propagation)
-    n_steps = ck.pick(260, 3000)
+    n_steps = ck.pick(420, 2800)
     idx = list(range(len(cases)))
     def steppable(c):
         ds = [d for v in c.get("lists", {}).values() for d in v] + list(c.get("singles", {}).values())
@@ -1159,7 +1229,7 @@ def _run(ck: core.Check, env: Env, info):
         model = [None] * len(cases)
 
     stats = {"ctor": {}, "stage": {}, "model_err": 0, "with_steps": 0, "step_errors": {}, "containers": {},
-             "behaviours": {}, "max_operands": 0, "prescribed": 0}
+             "behaviours": {}, "max_operands": 0, "prescribed": 0, "relations": {}, "relations_constructed": {}}
     mismatches = 0
     unobservable = {}
     for case, steps, m in zip(cases, steps_of, model):
@@ -1173,10 +1243,15 @@ def _run(ck: core.Check, env: Env, info):
             continue
         nops = sum(len(v) for v in case.get("lists", {}).values())
         key = (case["mod"], case["ctor"], repr(case.get("lists")), repr(case.get("singles")), repr(case.get("ints")),
-               repr(case.get("axes")), repr(case.get("scan_attrs")), repr(sorted((r, c["beh"], c.get("n")) for r, c in case["cbs"].items())))
+               repr(case.get("axes")), repr(case.get("scan_attrs")), case.get("rel"), repr(sorted((r, c["beh"], c.get("n")) for r, c in case["cbs"].items())))
         ck.count(key if (nops >= 1 or not all_good(case)) else None)
         stats["ctor"][case["ctor"]] = stats["ctor"].get(case["ctor"], 0) + 1
         stats["stage"][obs["stage"]] = stats["stage"].get(obs["stage"], 0) + 1
+        if case["ctor"] != "if_":
+            rl = case.get("rel", "same")
+            stats["relations"][rl] = stats["relations"].get(rl, 0) + 1
+            if obs["stage"] == "done":
+                stats["relations_constructed"][rl] = stats["relations_constructed"].get(rl, 0) + 1
         stats["max_operands"] = max(stats["max_operands"], nops)
         stats["prescribed"] += int(prescription(case) is not None)
         stats["with_steps"] += int(bool(obs["steps"]))
@@ -1203,7 +1278,7 @@ def _run(ck: core.Check, env: Env, info):
     n_ort = 0
     for mod in env.mods:
         for prog in ORT_PROGS:
-            for rep in range(ck.pick(1, 8)):
+            for rep in range(ck.pick(1, 5)):
                 seed = rng.randrange(1 << 30)
                 n_ort += 1
                 ck.count(("ort", mod, prog))
@@ -1225,7 +1300,7 @@ def _run(ck: core.Check, env: Env, info):
         f"{len(POOL)} types (ranks 0-3, symbolic/unknown dims, unknown shape, sequences, optionals) "
         "[Loop: carried; Scan: tensors x every num_scan_inputs 0..len+1 x scan axes none/0/-1/1; SequenceMap: 3 "
         "sequence types x tensor/sequence extras] + seeded length-3 lists, unknown-typed and ill-kinded operands, "
-        "5 result containers, malformed callbacks (not callable / non-iterable / non-Var element / raising) and "
+        "9 relations between the values a body feeds back and its arguments (same / identity / other constant dim / other rank / other dtype / unknown rank / swapped / outer-scope value / constant), 5 result containers, malformed callbacks (not callable / non-iterable / non-Var element / raising) and "
         "unnatural result counts; non-trivial = at least one operand or a malformed callback; distinct by "
         "(module, constructor, operand types, num_scan_inputs, axes, callback behaviours)"
     )
